@@ -1163,6 +1163,16 @@ func (p *Parser) parseCastExpression() (*ast.CastExpression, error) {
 		p.advance() // Consume )
 	}
 
+	// Array type suffix, as after '::' (INT[], TEXT[][]): the serialisers print both spellings as CAST
+	for p.isType(models.TokenTypeLBracket) {
+		p.advance() // Consume [
+		if !p.isType(models.TokenTypeRBracket) {
+			return nil, p.expectedError("]")
+		}
+		p.advance() // Consume ]
+		dataType += "[]"
+	}
+
 	// Expect closing parenthesis of CAST
 	if !p.isType(models.TokenTypeRParen) {
 		return nil, p.expectedError(")")
